@@ -1167,6 +1167,10 @@ def oracle_selftest(ck):
 
 
 def run(ck):
+    if ck.shard == 0:
+        # repeat-call monitor (shared, added by the framework owner): history / reused-object / memory-layout independence
+        from .. import repeat
+        repeat.run(ck, PID, repeat.table(PID, ck.rng("repeat")))
     oracle_selftest(ck)
     run_chspline(ck)
     run_bspline(ck)
